@@ -65,11 +65,10 @@ def lex(text: str) -> dict:
                         continue
                     b, bpm = pair.split("=")
                     beat, bpm = float(b), float(bpm)
-                    p48 = round(beat * 48)
-                    if abs(beat * 48 - p48) > 1e-6:
+                    p = round(beat * 4800)
+                    if abs(beat * 4800 - p) > 1e-6:
                         tok["bpms_exact"] = False
-                    tok["bpms"].append({"p48": int(p48), "bl": int(round(60000.0 / bpm * T)), "beat1000": int(round(beat * 1000)),
-                                        "bpm1000": int(round(bpm * 1000))})
+                    tok["bpms"].append({"p": int(p), "bl": int(round(60000.0 / bpm * T)), "bpm1000": int(round(bpm * 1000))})
             elif tag == "STOPS":
                 tok["stops"] = len([x for x in v.split(",") if x.strip()])
         except (ValueError, ZeroDivisionError):
